@@ -10,6 +10,17 @@
 
 package bls24317
 
+//@ func io.ReadFull
+//@ assumed io.ReadFull (standard library): copies into buf from the reader and reports how many bytes it copied, at most len(buf), and exactly len(buf) when it returns no error
+//@ ensures 0 <= result0 && result0 <= len(buf) && (isnil(result1) ==> result0 == len(buf))
+//@ modifies buf
+//@ end
+
+//@ func (io.Writer).Write
+//@ assumed interface io.Writer: Write reports how many bytes of p it wrote, at most len(p), and returns an error when it wrote fewer; it neither keeps nor changes p
+//@ ensures 0 <= result0 && result0 <= len(p) && (isnil(result1) ==> result0 == len(p))
+//@ end
+
 //@ func Decoder.Decode
 //@ variant u64-matrix
 //@ dyntype v *[][]uint64
@@ -105,8 +116,11 @@ package bls24317
 //@ option opaque-calls
 //@ option nomerge
 //@ ghost failed = false
+//@ requires 0 <= dec.n && dec.n <= 4611686018427387904
+//@ ghost total = 0
 //@ cut after call ReadFull #*
 //@ + ghost failed = failed || !isnil(callresult1)
+//@ + ghost total = total + callresult0
 //@ cut after call SetBytesCanonical #*
 //@ + ghost failed = failed || !isnil(callresult)
 //@ loop 0
@@ -140,6 +154,7 @@ package bls24317
 //@ + invariant[index] 0 <= iter && iter <= 1099511627776
 //@ + invariant[no-failure-so-far] !failed
 //@ ensures[no-hidden-error] isnil(err) ==> !failed
+//@ ensures[byte-counter] dec.n == old(dec.n) + total
 //@ modifies dec, v
 //@ end
 
@@ -149,8 +164,11 @@ package bls24317
 //@ option opaque-calls
 //@ option nomerge
 //@ ghost failed = false
+//@ requires 0 <= dec.n && dec.n <= 4611686018427387904
+//@ ghost total = 0
 //@ cut after call ReadFull #*
 //@ + ghost failed = failed || !isnil(callresult1)
+//@ + ghost total = total + callresult0
 //@ cut after call SetBytesCanonical #*
 //@ + ghost failed = failed || !isnil(callresult)
 //@ loop 0
@@ -184,6 +202,7 @@ package bls24317
 //@ + invariant[index] 0 <= iter && iter <= 1099511627776
 //@ + invariant[no-failure-so-far] !failed
 //@ ensures[no-hidden-error] isnil(err) ==> !failed
+//@ ensures[byte-counter] dec.n == old(dec.n) + total
 //@ modifies dec, v
 //@ end
 
@@ -366,8 +385,11 @@ package bls24317
 //@ option opaque-calls
 //@ option nomerge
 //@ ghost failed = false
+//@ requires 0 <= dec.n && dec.n <= 4611686018427387904
+//@ ghost total = 0
 //@ cut after call ReadFull #*
 //@ + ghost failed = failed || !isnil(callresult1)
+//@ + ghost total = total + callresult0
 //@ cut after call setBytes #*
 //@ + ghost failed = failed || !isnil(callresult1)
 //@ loop 0
@@ -401,6 +423,7 @@ package bls24317
 //@ + invariant[index] 0 <= iter && iter <= 1099511627776
 //@ + invariant[no-failure-so-far] !failed
 //@ ensures[no-hidden-error] isnil(err) ==> !failed
+//@ ensures[byte-counter] dec.n == old(dec.n) + total
 //@ modifies dec, v
 //@ end
 
@@ -410,8 +433,11 @@ package bls24317
 //@ option opaque-calls
 //@ option nomerge
 //@ ghost failed = false
+//@ requires 0 <= dec.n && dec.n <= 4611686018427387904
+//@ ghost total = 0
 //@ cut after call ReadFull #*
 //@ + ghost failed = failed || !isnil(callresult1)
+//@ + ghost total = total + callresult0
 //@ cut after call setBytes #*
 //@ + ghost failed = failed || !isnil(callresult1)
 //@ loop 0
@@ -445,6 +471,7 @@ package bls24317
 //@ + invariant[index] 0 <= iter && iter <= 1099511627776
 //@ + invariant[no-failure-so-far] !failed
 //@ ensures[no-hidden-error] isnil(err) ==> !failed
+//@ ensures[byte-counter] dec.n == old(dec.n) + total
 //@ modifies dec, v
 //@ end
 
@@ -455,8 +482,11 @@ package bls24317
 //@ option nomerge
 //@ option struct-slices
 //@ ghost failed = false
+//@ requires 0 <= enc.n && enc.n <= 4611686018427387904
+//@ ghost total = 0
 //@ cut after call io.Writer.Write #*
 //@ + ghost failed = failed || !isnil(callresult1)
+//@ + ghost total = total + callresult0
 //@ loop 0
 //@ + invariant[index] 0 <= iter && iter <= 1099511627776
 //@ + invariant[no-failure-so-far] !failed
@@ -473,6 +503,7 @@ package bls24317
 //@ + invariant[index] 0 <= iter && iter <= 1099511627776
 //@ + invariant[no-failure-so-far] !failed
 //@ ensures[no-hidden-error] isnil(err) ==> !failed
+//@ ensures[byte-counter] enc.n == old(enc.n) + total
 //@ modifies enc
 //@ end
 
@@ -483,8 +514,11 @@ package bls24317
 //@ option nomerge
 //@ option struct-slices
 //@ ghost failed = false
+//@ requires 0 <= enc.n && enc.n <= 4611686018427387904
+//@ ghost total = 0
 //@ cut after call io.Writer.Write #*
 //@ + ghost failed = failed || !isnil(callresult1)
+//@ + ghost total = total + callresult0
 //@ loop 0
 //@ + invariant[index] 0 <= iter && iter <= 1099511627776
 //@ + invariant[no-failure-so-far] !failed
@@ -501,6 +535,7 @@ package bls24317
 //@ + invariant[index] 0 <= iter && iter <= 1099511627776
 //@ + invariant[no-failure-so-far] !failed
 //@ ensures[no-hidden-error] isnil(err) ==> !failed
+//@ ensures[byte-counter] enc.n == old(enc.n) + total
 //@ modifies enc
 //@ end
 
@@ -628,8 +663,11 @@ package bls24317
 //@ option nomerge
 //@ option struct-slices
 //@ ghost failed = false
+//@ requires 0 <= enc.n && enc.n <= 4611686018427387904
+//@ ghost total = 0
 //@ cut after call io.Writer.Write #*
 //@ + ghost failed = failed || !isnil(callresult1)
+//@ + ghost total = total + callresult0
 //@ cut before call io.Writer.Write #*
 //@ + invariant[bytes-of-the-point] called(Bytes) && len(callarg1) == len(resultof_Bytes) && forall(j, 0, len(resultof_Bytes), callarg1[j] == resultof_Bytes[j])
 //@ loop 0
@@ -648,6 +686,7 @@ package bls24317
 //@ + invariant[index] 0 <= iter && iter <= 1099511627776
 //@ + invariant[no-failure-so-far] !failed
 //@ ensures[no-hidden-error] isnil(err) ==> !failed
+//@ ensures[byte-counter] enc.n == old(enc.n) + total
 //@ modifies enc
 //@ end
 
@@ -690,8 +729,11 @@ package bls24317
 //@ option nomerge
 //@ option struct-slices
 //@ ghost failed = false
+//@ requires 0 <= enc.n && enc.n <= 4611686018427387904
+//@ ghost total = 0
 //@ cut after call io.Writer.Write #*
 //@ + ghost failed = failed || !isnil(callresult1)
+//@ + ghost total = total + callresult0
 //@ cut before call io.Writer.Write #*
 //@ + invariant[bytes-of-the-point] called(Bytes) && len(callarg1) == len(resultof_Bytes) && forall(j, 0, len(resultof_Bytes), callarg1[j] == resultof_Bytes[j])
 //@ loop 0
@@ -710,6 +752,7 @@ package bls24317
 //@ + invariant[index] 0 <= iter && iter <= 1099511627776
 //@ + invariant[no-failure-so-far] !failed
 //@ ensures[no-hidden-error] isnil(err) ==> !failed
+//@ ensures[byte-counter] enc.n == old(enc.n) + total
 //@ modifies enc
 //@ end
 
@@ -752,8 +795,11 @@ package bls24317
 //@ option nomerge
 //@ option struct-slices
 //@ ghost failed = false
+//@ requires 0 <= enc.n && enc.n <= 4611686018427387904
+//@ ghost total = 0
 //@ cut after call io.Writer.Write #*
 //@ + ghost failed = failed || !isnil(callresult1)
+//@ + ghost total = total + callresult0
 //@ loop 0
 //@ + invariant[index] 0 <= iter && iter <= 1099511627776
 //@ + invariant[no-failure-so-far] !failed
@@ -770,6 +816,7 @@ package bls24317
 //@ + invariant[index] 0 <= iter && iter <= 1099511627776
 //@ + invariant[no-failure-so-far] !failed
 //@ ensures[no-hidden-error] isnil(err) ==> !failed
+//@ ensures[byte-counter] enc.n == old(enc.n) + total
 //@ modifies enc
 //@ end
 
@@ -780,8 +827,11 @@ package bls24317
 //@ option nomerge
 //@ option struct-slices
 //@ ghost failed = false
+//@ requires 0 <= enc.n && enc.n <= 4611686018427387904
+//@ ghost total = 0
 //@ cut after call io.Writer.Write #*
 //@ + ghost failed = failed || !isnil(callresult1)
+//@ + ghost total = total + callresult0
 //@ loop 0
 //@ + invariant[index] 0 <= iter && iter <= 1099511627776
 //@ + invariant[no-failure-so-far] !failed
@@ -798,6 +848,7 @@ package bls24317
 //@ + invariant[index] 0 <= iter && iter <= 1099511627776
 //@ + invariant[no-failure-so-far] !failed
 //@ ensures[no-hidden-error] isnil(err) ==> !failed
+//@ ensures[byte-counter] enc.n == old(enc.n) + total
 //@ modifies enc
 //@ end
 
@@ -925,8 +976,11 @@ package bls24317
 //@ option nomerge
 //@ option struct-slices
 //@ ghost failed = false
+//@ requires 0 <= enc.n && enc.n <= 4611686018427387904
+//@ ghost total = 0
 //@ cut after call io.Writer.Write #*
 //@ + ghost failed = failed || !isnil(callresult1)
+//@ + ghost total = total + callresult0
 //@ cut before call io.Writer.Write #*
 //@ + invariant[bytes-of-the-point] called(RawBytes) && len(callarg1) == len(resultof_RawBytes) && forall(j, 0, len(resultof_RawBytes), callarg1[j] == resultof_RawBytes[j])
 //@ loop 0
@@ -945,6 +999,7 @@ package bls24317
 //@ + invariant[index] 0 <= iter && iter <= 1099511627776
 //@ + invariant[no-failure-so-far] !failed
 //@ ensures[no-hidden-error] isnil(err) ==> !failed
+//@ ensures[byte-counter] enc.n == old(enc.n) + total
 //@ modifies enc
 //@ end
 
@@ -987,8 +1042,11 @@ package bls24317
 //@ option nomerge
 //@ option struct-slices
 //@ ghost failed = false
+//@ requires 0 <= enc.n && enc.n <= 4611686018427387904
+//@ ghost total = 0
 //@ cut after call io.Writer.Write #*
 //@ + ghost failed = failed || !isnil(callresult1)
+//@ + ghost total = total + callresult0
 //@ cut before call io.Writer.Write #*
 //@ + invariant[bytes-of-the-point] called(RawBytes) && len(callarg1) == len(resultof_RawBytes) && forall(j, 0, len(resultof_RawBytes), callarg1[j] == resultof_RawBytes[j])
 //@ loop 0
@@ -1007,6 +1065,7 @@ package bls24317
 //@ + invariant[index] 0 <= iter && iter <= 1099511627776
 //@ + invariant[no-failure-so-far] !failed
 //@ ensures[no-hidden-error] isnil(err) ==> !failed
+//@ ensures[byte-counter] enc.n == old(enc.n) + total
 //@ modifies enc
 //@ end
 
